@@ -78,6 +78,7 @@ pub fn cmd_worker(args: &[String]) -> i32 {
             break;
         }
         let rs = run_seed(seed, scn.name(), i);
+        crate::framework::set_run_index(i);
         let o = scn.run_seed(rs, tier, false);
         n_runs += 1;
         if o.hung {
@@ -757,6 +758,7 @@ pub fn cmd_selftest(args: &[String]) -> i32 {
             let mut i = offset;
             while i < n {
                 let rs = run_seed(seed, scn.name(), i);
+                crate::framework::set_run_index(i);
                 let o = scn.run_seed(rs, Tier::Quick, false);
                 println!(
                     "{i} {rs} {:016x} {} {}",
